@@ -38,6 +38,12 @@ func (o Op12) String() string {
 type Case12 struct {
 	Start B      `json:"start"`
 	Ops   []Op12 `json:"ops"`
+	// Via: "" the start string is parsed; "resolve": Start is parsed as a base, optionally its
+	// SearchParams() is called (TouchBase), and the URL under test is base.Parse(Ref); "clone": the URL
+	// under test is a Clone of the parsed start (after TouchBase).
+	Via       string `json:"via,omitempty"`
+	Ref       B      `json:"ref,omitempty"`
+	TouchBase bool   `json:"touch_base,omitempty"`
 }
 
 // queryPartOfHref: the text between the first '?' and the '#' of the serialization ("" if no '?').
@@ -53,6 +59,11 @@ func queryPartOfHref(href string) (string, bool) {
 }
 
 func hist12(c Case12, upto int) string {
+	if c.Via != "" {
+		d := c
+		d.Via = ""
+		return fmt.Sprintf("[%s of %s ref=%s touch=%v] %s", c.Via, quote(string(c.Start)), quote(string(c.Ref)), c.TouchBase, hist12(d, upto))
+	}
 	var parts []string
 	for _, o := range c.Ops[:upto+1] {
 		parts = append(parts, o.String())
@@ -108,6 +119,21 @@ func Check12(c Case12, r *core.Rec) {
 	if err != nil || u == nil {
 		r.Vacuous()
 		return
+	}
+	if c.Via != "" {
+		if c.TouchBase {
+			u.SearchParams()
+		}
+		if c.Via == "resolve" {
+			u, err = u.Parse(string(c.Ref))
+			if err != nil || u == nil {
+				r.Vacuous()
+				return
+			}
+		} else {
+			u = u.Clone()
+		}
+		r.Class("via:" + c.Via)
 	}
 	var handles []*url.SearchParams
 	var model listModel
@@ -231,6 +257,13 @@ func Gen12(t *rapid.T) Case12 {
 	} else {
 		c.Start = B(gen.Pick(t, "start", c12Starts))
 	}
+	if rapid.IntRange(0, 3).Draw(t, "via") == 0 {
+		c.Via = gen.Pick(t, "viaKind", []string{"resolve", "resolve", "clone"})
+		c.TouchBase = rapid.IntRange(0, 2).Draw(t, "touchBase") != 0
+		if c.Via == "resolve" {
+			c.Ref = B(gen.Pick(t, "ref", []string{"", "#f", "#", "?x=1", "p", "/q?y=2", "../r", "?", "#?a=b"}))
+		}
+	}
 	spOps := []string{"append", "append", "delete", "set", "sort", "sortabs", "get", "has"}
 	genSP := func() Op12 {
 		o := SPOp{Op: gen.Pick(t, "spop", spOps)}
@@ -298,7 +331,7 @@ func Gen12(t *rapid.T) Case12 {
 
 var P12 = core.Register(core.Prop[Case12]{
 	ID: "C12",
-	Rule: "a start URL (special / non-special, with and without query and fragment, opaque path) and 1..12 steps: fetch a SearchParams handle (at any point, repeatedly), a list operation through any live handle, SetSearch(v) (incl. '', '?', delimiters, '#', tab), another setter (hash, pathname, host, protocol, username, port); " +
+	Rule: "a start URL (special / non-special, with and without query and fragment, opaque path; a quarter of the cases obtained by resolving a reference against — or cloning — a URL whose SearchParams() was or was not called before) and 1..12 steps: fetch a SearchParams handle (at any point, repeatedly), a list operation through any live handle, SetSearch(v) (incl. '', '?', delimiters, '#', tab), another setter (hash, pathname, host, protocol, username, port); " +
 		"oracle, after every step: I1 after a list mutation Query / Search / the query part of Href equal the list's serialization; I2 after SetSearch every live handle and a fresh one equal the form-urlencoded parse of the new query (empty after clearing); I3 other setters leave the query and the list alone; I4 all live handles show the same expected list (Get/GetAll/Has for all names in play + String); " +
 		"non-trivial = the history has a SetSearch followed by a list mutation through a handle obtained before it; distinct by hash of the history",
 	Gen:   Gen12,
